@@ -122,7 +122,7 @@ def sync_table_rule(prog, res, rule='sync-table'):
                  lambda e: [('firstFrame', 0), ('lastFrame', (e['FRAMES'] - 1) % U64)] if e['FRAMES'] != e['hFrames'] else []))
     rows.append(('point count <- POINT:USED', {'USED': [0, 1, 2], 'hPoints': [0, 1, 2]},
                  lambda e: [('nb3dPoints', e['USED'])] if e['USED'] != e['hPoints'] else []))
-    rows.append(('frame rate <- POINT:RATE', {'RATE': [0.0, 50.0, 100.0], 'hRate': [0.0, 50.0, 100.0]},
+    rows.append(('frame rate <- POINT:RATE', {'RATE': [0.0, 0.5, 50.0, 59.94, 60.0, 100.0], 'hRate': [0.0, 0.5, 50.0, 59.94, 60.0, 100.0]},       # incl. changes of less than 1 Hz
                  lambda e: [('frameRate', e['RATE'])] if e['RATE'] != e['hRate'] else []))
     rows.append(('channel count <- ANALOG:USED', {'AUSED': [0, 1, 2], 'hAnalogs': [0, 1, 2], 'nAnalogParams': [0, 5]},
                  lambda e: ([('nbAnalogs', e['AUSED'])] if e['AUSED'] != e['hAnalogs'] else []) if e['nAnalogParams'] else [('nbAnalogs', 0)]))
